@@ -188,6 +188,19 @@ def run(ctx, replay):
             for e in extra:
                 ops1 += ["pad %d" % rg.randint(1, 6), "ev", e, "ev"]
             acases.append(ops1)
+        # the directed sweep of C03 (one statement per case: every statement family x its discrete parameters, ~720 cases), each
+        # statement at a random fill level: every recording site of the array driver is reached in every run
+        for ops0, _g in c03.sweep_cases(ctx.rng, ctx.tier):
+            ops1 = []
+            for o in ops0:
+                if o.startswith("jac") or o.startswith("geom"):
+                    continue
+                if ac.is_stmt(o):
+                    ops1 += ["pad %d" % ctx.rng.randint(0, 6), "ev"] if ctx.rng.random() < 0.7 else []
+                ops1.append(o)
+                if ac.is_stmt(o) or o == "nr":
+                    ops1.append("ev")
+            acases.append(ops1)
         atext = "".join("\n".join(c) + "\n" for c in acases)
         aouts = [vcheck.run_impl(exe, [], atext) for exe in aexes]
         stmt_lines = {}
